@@ -250,6 +250,10 @@ void profile_resolve(Gen &g) {
 			for (int t = 0; t < kk; t++) { Op e = g.mk(0, "edit"); g.seti(e, "o", 0); g.set(e, "what", rows_in ? "delcol" : "delrow"); g.seti(e, "i", r.below(30)); g.seti(e, "j", r.below(30)); p.ops.push_back(e); }
 		}
 		if (r.chance(1, 8)) { Op o = g.gen_param(0); g.seti(o, "o", 0); p.ops.push_back(o); }
+		// the application keeps its own basis (column generation, cutting planes): a basis of the present dimensions is made and loaded, so
+		// the next solve takes the "basis passed in, pricing information kept" path with whatever the edits left of the norms
+		if (r.chance(1, 4)) { Op mkb = g.mk(0, "basis"); g.seti(mkb, "o", 0); g.set(mkb, "what", "make"); g.seti(mkb, "pat", r.chance(1, 3) ? -1 : (long)r.below(100000)); p.ops.push_back(mkb);
+			Op ld = g.mk(0, "basis"); g.seti(ld, "o", 0); g.set(ld, "what", r.chance(1, 2) ? "load" : "loadarray"); g.seti(ld, "k", -1); p.ops.push_back(ld); }
 		Op s = direct(); if (g.faults && r.chance(1, 4)) g.add_interruption(s); p.ops.push_back(s);
 		if (r.chance(1, 5) && g.ok("tableau")) { Op t = g.mk(0, "tableau"); g.seti(t, "o", 0); p.ops.push_back(t); }
 		if (r.chance(1, 10) && g.ok("pivotin")) { Op o = g.mk(0, "pivotin"); g.seti(o, "o", 0); g.set(o, "what", r.chance(1, 2) ? "row" : "col"); g.seti(o, "a", r.below(50)); g.seti(o, "cnt", r.range(1, 3)); p.ops.push_back(o); }
